@@ -1,0 +1,15 @@
+//go:build verif
+
+package eventlog
+
+import "github.com/google/uuid"
+
+// VerifVariableLocatorDecode exposes variableLocatorDecode to the verification harness.
+func VerifVariableLocatorDecode(loc []byte) (uuid.UUID, []uint8, error) {
+	return variableLocatorDecode(loc)
+}
+
+// VerifUcs2toUTF8 exposes ucs2toUTF8 to the verification harness.
+func VerifUcs2toUTF8(name []uint8) (string, error) {
+	return ucs2toUTF8(name)
+}
